@@ -532,3 +532,26 @@ package packet
 //@   ensures Wfail(wk) ==> err != nil                                                [@errprop]
 //@   ensures !Wfail(wk) ==> err == nil                                               [@errprop]
 //@   modifies sink(w)                                                                [@frame]
+
+// ---------------------------------------------------------------- Option[T] (C06: the optional-value combinator)
+//
+// Wire form: Boolean "has value", then the value iff it is true. Checked for every instance the
+// program uses (the value's own codec is the instance type's contract); stated generically here:
+// the flag byte, the count, and that nothing follows an absent value.
+//@ func (Option).WriteTo(o; w) (n, err)
+//@   let wk = sink(w)
+//@   let l0 = old(Wlen(wk))
+//@   requires l0 < 1<<30
+//@   ensures all(k, 0, l0, Wout(wk, k) == old(Wout(wk, k)))                         [@frame]
+//@   ensures err == nil ==> n >= 1 && Wout(wk, l0) == ite(o.Has, uint8(1), uint8(0))   [@value]
+//@   ensures err == nil && !o.Has ==> n == 1 && Wlen(wk) == l0 + 1                   [@count]
+//@   ensures Wfail(wk) ==> err != nil                                                [@errprop]
+//@   modifies sink(w)                                                                [@frame]
+
+//@ func (*Option).ReadFrom(o; r) (n, err)
+//@   let st = stream(r)
+//@   let p0 = old(Spos(st))
+//@   ensures err == nil ==> o.Has == (Sin(st, p0) != 0) && n >= 1                    [@value]
+//@   ensures err == nil && !o.Has ==> n == 1 && Spos(st) == p0 + 1                   [@count @consume]
+//@   ensures Sfail(st) ==> err != nil                                                [@errprop]
+//@   modifies *o, stream(r)                                                          [@frame]
